@@ -6,7 +6,7 @@ import c16, enc, procs, session
 from session import Inconclusive
 
 SIZES = [(1, 1), (1, 80), (24, 1), (2, 2), (3, 5), (10, 20), (24, 80), (50, 150), (100, 300), (4, 49), (5, 60)]
-KEYNAMES = ["F1", "F2", "F3", "F4", "F5", "Tab", "l", "i", "h", "t", "n", "-", "+", "Up", "Down", "Left", "Right", "Enter", "Esc", "PageUp", "Home", "BackTab", "x", "Space"]
+KEYNAMES = [k for k in procs.KEYS if k not in ("q", "CtrlC")]
 
 
 def aircraft_lines(rng, n, lat, lon, spread_km=150):
@@ -202,6 +202,10 @@ def run_session(col, binpath, rng, tag, scratch, n_events):
         sess.p.write(b"\x1b[201~")
         sess.p.pump(0.1)
         sess.p.write(b"x")
+        sess.p.pump(0.1)
+        # ... and 'c' ends a pending "ESC [ ?" (device-attributes / keyboard-flags reply), which the
+        # terminal library keeps collecting until it sees 'c' or 'u'
+        sess.p.write(b"c")
         sess.p.pump(0.15)
         sess.key(quit_how)
         check_exit(col, sess, f"'{quit_how}'", cls, inp)
@@ -257,6 +261,36 @@ def quit_on_reconnect_screen(col, binpath, rng, tag, scratch):
         col.count("sessions")
         col.cls("session|waiting_for_reconnect")
         check_exit(col, sess, f"'{how}' while waiting for a reconnect", "reconnect_wait", inp)
+        col.count("quits_checked")
+    finally:
+        sess.close()
+
+
+def quit_after_reconnect(col, binpath, rng, tag, scratch):
+    """--retry-tcp: the feed is lost, comes back, then goes silent; keys must still be handled and quit must work."""
+    how = rng.choice(["q", "CtrlC"])
+    lines = aircraft_lines(rng, 3, 52.0, 4.0)
+    plan = [("send", b"".join(lines)), ("sleep", 1.0), ("close",), ("sleep", rng.choice([0.2, 1.0])), ("accept", 25.0), ("send", b"".join(lines[:4])), ("mark", "second_feed"), ("sleep", 60)]
+    sess = session.RadarSession(binpath, plan, lat=52.0, lon=4.0, opts=["--retry-tcp"] + rng.choice([[], ["--touchscreen"], ["--filter-time", "1"]]), rows=30, cols=100, scratch=scratch)
+    inp = {"scenario": "reconnected, then the feed is silent", "argv": sess.argv, "quit": how, "tag": tag}
+    try:
+        sess.wait_connected()
+        end = time.monotonic() + 45
+        while time.monotonic() < end and not sess.srv.marked("second_feed"):
+            sess.p.pump(0.1)
+            if not sess.p.alive():
+                col.add("C17", f"C17|terminated_before_quit|reconnect|{sess.panic_location()}", f"radar exited (status {sess.p.p.returncode}) around a reconnect", inp)
+                return
+        if not sess.srv.marked("second_feed"):
+            raise Inconclusive("no second connection")
+        sess.p.pump(1.5)  # silence
+        for k in rng.choice([["F3", "Down"], ["F4"], ["Tab", "Tab"], []]):
+            sess.key(k)
+            sess.p.pump(0.1)
+        col.count("sessions")
+        col.cls("session|reconnected_then_silent")
+        sess.key(how)
+        check_exit(col, sess, f"'{how}' on a silent feed after a reconnect", "reconnected_silent", inp)
         col.count("quits_checked")
     finally:
         sess.close()
@@ -340,6 +374,8 @@ def main(a, lcol, col, run_all, scratch, START):
         jobs.append((f"waiting#{i}", lambda rng, i=i: quit_while_waiting(lcol, a.bin, rng, f"waiting#{i}", scratch)))
     for i in range(16 if thorough else 4):
         jobs.append((f"reconnect#{i}", lambda rng, i=i: quit_on_reconnect_screen(lcol, a.bin, rng, f"reconnect#{i}", scratch)))
+    for i in range(12 if thorough else 3):
+        jobs.append((f"reconnected#{i}", lambda rng, i=i: quit_after_reconnect(lcol, a.bin, rng, f"reconnected#{i}", scratch)))
     for name, args in CLI_CASES:
         jobs.append((f"cli/{name}", lambda rng, name=name, args=args: cli_case(lcol, a.bin, name, args, scratch)))
     if a.replay:
@@ -356,6 +392,6 @@ def main(a, lcol, col, run_all, scratch, START):
     ev = col.counters.get("events", 0) + col.counters.get("cli_cases", 0) + col.counters.get("quits_checked", 0)
     col.sample({"session": "40 aircraft, traffic running, --filter-time 1, 150 events", "events": ["key:F3", "key:Down", "mouse:drag:17:9", "resize:1:1", "raw:b'\\x1b[<'", "key:Enter"], "then": "q -> exit status, termios, cursor/mouse modes"})
     return vlib.finish(col, "C17", a.tier, a.seed, "exploration",
-        "radar on a pseudo-terminal: seeded random sequences (10-300 events) over keys (F1-F5, Tab, l i h t n, - +, arrows, Enter, others), SGR mouse reports (down/up/drag/scroll/right/move at tab hit boxes, touchscreen buttons, anywhere, outside the window), held keys (40-300 repeats), steady pointer streams (150-300 reports a few ms apart), resizes (1x1 ... 300x100) and raw bytes / broken escape sequences, x tracked set 0/1/3/10/40 x traffic stopped/running x --filter-time default/0/1 x option subsets; process must stay alive until quit, then exit 0 with termios and cursor/mouse modes restored; quit while 'Waiting for connection'; 15 invalid command-line values must end in a non-panic error exit; distinct_nontrivial = distinct (event kind/key, session class, CLI case) cells exercised",
+        "radar on a pseudo-terminal: seeded random sequences (10-300 events) over keys (F1-F5, Tab, l i h t n, - +, arrows, Enter, others), SGR mouse reports (down/up/drag/scroll/right/move at tab hit boxes, touchscreen buttons, anywhere, outside the window), held keys (40-300 repeats), steady pointer streams (150-300 reports a few ms apart), resizes (1x1 ... 300x100) and raw bytes / broken escape sequences, x tracked set 0/1/3/10/40 x traffic stopped/running x --filter-time default/0/1 x option subsets; process must stay alive until quit, then exit 0 with termios and cursor/mouse modes restored; quit while 'Waiting for connection', on the reconnect screen, and on a silent feed after a successful reconnect; 15 invalid command-line values must end in a non-panic error exit; distinct_nontrivial = distinct (event kind/key, session class, CLI case) cells exercised",
         ["the terminal is a pty with a minimal VT model; 'as it found it' = termios flags equal, cursor visible, mouse reporting modes off", "exit deadlines (20 s) are generous; a process that never exits after quit is a violation, a driver that cannot connect is inconclusive"],
         a.verif, START, ev, len(col.classes), min_evaluations=50)
